@@ -20,9 +20,12 @@ def run_one(m, props, tier='quick'):
         shutil.copytree('/repo/playback', os.path.join(d, 'playback'))
         p = os.path.join(d, path)
         s = open(p).read()
-        if s.count(old) < 1:
-            return {pp: 'MUTATION-DOES-NOT-APPLY' for pp in (props or expected)}
-        open(p, 'w').write(s.replace(old, new, 1))
+        olds, news = (old, new) if isinstance(old, list) else ([old], [new])
+        for o, n in zip(olds, news):
+            if s.count(o) < 1:
+                return {pp: 'MUTATION-DOES-NOT-APPLY' for pp in (props or expected)}
+            s = s.replace(o, n, 1)
+        open(p, 'w').write(s)
         out = {}
         for prop in (props or expected):
             env = dict(os.environ, PLAYBACK_SRC=d)
